@@ -21,7 +21,7 @@ pub struct Case {
     pub family: String,
 }
 
-pub fn check_bfs<D: Order + OutNeighbors + Clone>(g: &D, name: &str, m: &UModel, sources: &[usize]) -> Verdict {
+pub fn check_bfs<D: Order + OutNeighbors + Clone>(g: &D, name: &str, m: &UModel, sources: &[usize], mk: &dyn Fn(&Dg) -> D) -> Verdict {
     let hops = m.hops(sources);
     let reachable: BTreeSet<usize> = hops.keys().copied().collect();
     let rd = |v: usize| hops.get(&v).map_or(-1, |&d| d as i128);
@@ -47,6 +47,12 @@ pub fn check_bfs<D: Order + OutNeighbors + Clone>(g: &D, name: &str, m: &UModel,
         crate::props::c02::protocol(&format!("BfsDist<{name}>"), || BfsDist::new(g, sources.iter().copied()), &items)?;
         crate::props::c02::clone_consistency(&format!("Bfs<{name}>"), || Bfs::new(g, sources.iter().copied()), seq.len())?;
         crate::props::c02::clone_consistency(&format!("BfsDist<{name}>"), || BfsDist::new(g, sources.iter().copied()), items.len())?;
+        // clone_from onto an iterator over a digraph of smaller / larger order
+        for alt in [mk(&gen::path_dg(n / 2)), mk(&gen::path_dg(n + 3))] {
+            let src = || std::iter::once(0);
+            crate::props::c02::clone_from_consistency(&format!("Bfs<{name}>"), || Bfs::new(g, sources.iter().copied()), || Bfs::new(&alt, src()), seq.len())?;
+            crate::props::c02::clone_from_consistency(&format!("BfsDist<{name}>"), || BfsDist::new(g, sources.iter().copied()), || BfsDist::new(&alt, src()), items.len())?;
+        }
     }
     // the same sources through an iterator with an inexact size hint
     let lazy = || sources.iter().copied().filter(|_| true);
@@ -236,11 +242,11 @@ impl Prop for C04 {
     fn check(c: &Case, obs: &mut Obs) -> Verdict {
         let m = reprs::model_of(&c.g);
         let s = &c.sources;
-        check_bfs(&AdjacencyList::build(&c.g), "AdjacencyList", &m, s)?;
-        check_bfs(&AdjacencyMap::build(&c.g), "AdjacencyMap", &m, s)?;
-        check_bfs(&AdjacencyMatrix::build(&c.g), "AdjacencyMatrix", &m, s)?;
-        check_bfs(&EdgeList::build(&c.g), "EdgeList", &m, s)?;
-        check_bfs(&reprs::build_unit_weighted(&c.g), "AdjacencyListWeighted", &m, s)?;
+        check_bfs(&AdjacencyList::build(&c.g), "AdjacencyList", &m, s, &|d| AdjacencyList::build(d))?;
+        check_bfs(&AdjacencyMap::build(&c.g), "AdjacencyMap", &m, s, &|d| AdjacencyMap::build(d))?;
+        check_bfs(&AdjacencyMatrix::build(&c.g), "AdjacencyMatrix", &m, s, &|d| AdjacencyMatrix::build(d))?;
+        check_bfs(&EdgeList::build(&c.g), "EdgeList", &m, s, &|d| EdgeList::build(d))?;
+        check_bfs(&reprs::build_unit_weighted(&c.g), "AdjacencyListWeighted", &m, s, &reprs::build_unit_weighted)?;
 
         let hops = m.hops(s);
         let levels: BTreeSet<usize> = hops.values().copied().filter(|&d| d > 0).collect();
